@@ -529,6 +529,36 @@ Definition visit_assignment (lv : qarg) (op : string) (rv : expr) : M (list stmt
       end
   end.
 
+(* ---------- depth bookkeeping ---------- *)
+(* first pass of the two-pass depth updates (barrier, gate): rewrite each node, return the
+   maximum of (old depth + 1); second pass: every touched node gets that maximum *)
+Fixpoint depth_pass1 (upd : qnode -> qnode) (l : list bitref) (mx : Z) : M Z :=
+  match l with
+  | [] => ret mx
+  | b :: l' =>
+      qn <- get_qnode b;;
+      set_qnode b (upd qn);;;
+      depth_pass1 upd l' (Z.max mx (qd qn + 1))
+  end.
+Definition set_depth (m : Z) (qn : qnode) : qnode := mkQ m (q_resets qn) (q_meas qn) (q_gates qn) (q_barriers qn).
+Definition depth_pass2 (mx : Z) (l : list bitref) : M unit :=
+  iterM (fun b => qn <- get_qnode b;; set_qnode b (set_depth mx qn)) l.
+Definition barrier_upd (qn : qnode) : qnode := mkQ (qd qn + 1) (q_resets qn) (q_meas qn) (q_gates qn) (q_barriers qn + 1).
+Definition gate_upd (qn : qnode) : qnode := mkQ (qd qn) (q_resets qn) (q_meas qn) (q_gates qn + 1) (q_barriers qn).
+Definition reset_upd (qn : qnode) : qnode := mkQ (qd qn + 1) (q_resets qn + 1) (q_meas qn) (q_gates qn) (q_barriers qn).
+Definition depth_barrier (ids : list bitref) : M unit :=
+  mx <- depth_pass1 barrier_upd ids 0;; depth_pass2 mx ids.
+Definition depth_gate_subset (subset : list bitref) : M unit :=
+  mx <- depth_pass1 gate_upd subset 0;; depth_pass2 mx subset.
+Definition depth_reset (ids : list bitref) : M unit :=
+  iterM (fun b => qn <- get_qnode b;; set_qnode b (reset_upd qn)) ids.
+Definition depth_measure_pair (p : bitref * bitref) : M unit :=
+  qn <- get_qnode (fst p);;
+  cn <- get_cnode (snd p);;
+  let m := Z.max (qd qn + 1) (cd cn + 1) in
+  set_qnode (fst p) (mkQ m (q_resets qn) (q_meas qn + 1) (q_gates qn) (q_barriers qn));;;
+  set_cnode (snd p) (mkC m (c_meas cn + 1)).
+
 (* ---------- quantum statements ---------- *)
 Definition visit_measure (q : qarg) (target : option qarg) : M (list stmt) :=
   match target with
@@ -541,15 +571,7 @@ Definition visit_measure (q : qarg) (target : option qarg) : M (list stmt) :=
       s <- getst;;
       tgt <- get_op_bits [t] (creg_sizes s) false;;
       guard (Nat.eqb (List.length src) (List.length tgt)) EValidation;;;
-      iterM (fun p =>
-               qn <- get_qnode (fst p);;
-               cn <- get_cnode (snd p);;
-               let qdp := qd qn + 1 in
-               let cdp := cd cn + 1 in
-               let m := Z.max qdp cdp in
-               set_qnode (fst p) (mkQ m (q_resets qn) (q_meas qn + 1) (q_gates qn) (q_barriers qn));;;
-               set_cnode (snd p) (mkC m (c_meas cn + 1)))
-            (combine src tgt);;;
+      iterM depth_measure_pair (combine src tgt);;;
       emit (map (fun p => SMeasure (qarg_of (fst p)) (Some (qarg_of (snd p)))) (combine src tgt))
   end.
 
@@ -560,8 +582,7 @@ Definition visit_reset (q : list qarg) : M (list stmt) :=
   qs <- (if in_some_function s then transform_function_qubits q else ret q);;
   s <- getst;;
   ids <- get_op_bits qs (qreg_sizes s) true;;
-  iterM (fun b => qn <- get_qnode b;;
-                  set_qnode b (mkQ (qd qn + 1) (q_resets qn + 1) (q_meas qn) (q_gates qn) (q_barriers qn))) ids;;;
+  depth_reset ids;;;
   emit (map (fun b => SReset (qarg_of b)) ids).
 
 Definition visit_barrier (q : list qarg) : M (list stmt) :=
@@ -569,16 +590,7 @@ Definition visit_barrier (q : list qarg) : M (list stmt) :=
   qs <- (if in_some_function s then transform_function_qubits q else ret q);;
   s <- getst;;
   ids <- get_op_bits qs (qreg_sizes s) true;;
-  mx <- (fix go (l : list bitref) (mx : Z) : M Z :=
-           match l with
-           | [] => ret mx
-           | b :: l' =>
-               qn <- get_qnode b;;
-               set_qnode b (mkQ (qd qn + 1) (q_resets qn) (q_meas qn) (q_gates qn) (q_barriers qn + 1));;;
-               go l' (Z.max mx (qd qn + 1))
-           end) ids 0;;
-  iterM (fun b => qn <- get_qnode b;;
-                  set_qnode b (mkQ mx (q_resets qn) (q_meas qn) (q_gates qn) (q_barriers qn))) ids;;;
+  depth_barrier ids;;;
   emit (map (fun b => SBarrier [qarg_of b]) ids).
 
 Fixpoint chunks {A} (fuel : nat) (k : nat) (l : list A) : list (list A) :=
@@ -598,18 +610,7 @@ Definition unroll_targets (qubits : list qarg) (count : nat) : M (list (list bit
   end.
 
 Definition update_depth_for_gate (targets : list (list bitref)) : M unit :=
-  iterM (fun subset =>
-           mx <- (fix go (l : list bitref) (mx : Z) : M Z :=
-                    match l with
-                    | [] => ret mx
-                    | b :: l' =>
-                        qn <- get_qnode b;;
-                        set_qnode b (mkQ (qd qn) (q_resets qn) (q_meas qn) (q_gates qn + 1) (q_barriers qn));;;
-                        go l' (Z.max mx (qd qn + 1))
-                    end) subset 0;;
-           iterM (fun b => qn <- get_qnode b;;
-                           set_qnode b (mkQ mx (q_resets qn) (q_meas qn) (q_gates qn) (q_barriers qn))) subset)
-        targets.
+  iterM depth_gate_subset targets.
 
 Definition get_op_parameters (args : list expr) : M (list pyval) :=
   mapMM (fun e => eval0 e false None) args.
